@@ -6,6 +6,7 @@ import (
 	"crypto/tls"
 	"encoding/json"
 	"fmt"
+	"net"
 	"strings"
 	"sync"
 	"time"
@@ -90,6 +91,10 @@ func (c12) Plan(tier string, seed uint64) []core.Case {
 	for i := 0; i < nRand; i += 20 {
 		add("random", map[string]interface{}{"n": 20, "big": i%100 == 0}, core.Derive(seed, 1, uint64(i)).Uint64())
 	}
+	// a rejected (well-formed JSON, invalid envelope) value must leave nothing behind for the envelope that follows it
+	add("afterreject", map[string]interface{}{}, core.Derive(seed, 4).Uint64())
+	// long streams over real sockets (listener + dialer), both directions
+	add("loopstream", map[string]interface{}{}, core.Derive(seed, 5).Uint64())
 	// the sender closes right after its last envelope and everything, the TLS close alert included, reaches the
 	// receiver at once (TLS 1.2 and 1.3 report the end of the stream differently)
 	for _, v := range []string{"1.2", "1.3"} {
@@ -697,6 +702,10 @@ func (p c12) Run(c core.Case) core.Result {
 		}
 	case "tlsclose":
 		p.tlsClose(&r, c)
+	case "afterreject":
+		p.afterReject(&r, c)
+	case "loopstream":
+		p.loopStream(&r, c)
 	case "random", "tls":
 		rng := core.NewRng(c.Seed)
 		for i := 0; i < c.Int("n", 10); i++ {
@@ -897,4 +906,130 @@ func (p c12) tlsClose(r *core.Result, c core.Case) {
 		<-closed
 		r.Fingerprints = append(r.Fingerprints, fmt.Sprintf("tlsclose|%s|%d", ver, k))
 	}
+}
+
+// afterReject: a value that is well-formed JSON but not a valid envelope is rejected by Receive; the envelope that
+// follows it on the same connection must be handed over exactly as it was sent (nothing of the rejected one in it).
+func (p c12) afterReject(r *core.Result, c core.Case) {
+	bads := []string{
+		`{"id":"bad1","from":"a@b/c","to":"alice@d.e/home","pp":"p@q/r","metadata":{"#secret":"42"},"type":"","content":"x"}`,
+		`{"id":"bad2","to":"alice@d.e/home","metadata":{"k":"v"},"event":"zzz"}`,
+		`{"id":"bad3","from":"a@b/c","pp":"p@q/r","method":"zzz","uri":"/x"}`,
+		`{"id":"bad4","to":"x@y/z","from":"s@t/u","state":"zzz"}`,
+		`{"id":"bad5","to":"x@y/z","reason":{"code":7,"description":"leftover"},"metadata":{"a":"b"},"method":"get","status":"zzz"}`,
+		`{"id":"bad6","from":"a@b/c","to":"x@y/z","type":"application/json","content":{"k":1},"method":"get"}`,
+		`{"id":"bad7","to":"x@y/z","metadata":{"m":"n"},"content":"no type"}`,
+	}
+	oks := []struct{ kind, js string }{
+		{"notification", `{"id":"ok1","event":"received"}`},
+		{"session", `{"id":"ok2","state":"finishing"}`},
+		{"response", `{"id":"ok3","method":"get","status":"success"}`},
+		{"message", `{"id":"ok4","type":"text/plain","content":"hi"}`},
+		{"request", `{"id":"ok5","method":"get","uri":"/ping"}`},
+		{"notification", `{"id":"ok6","event":"failed","reason":{"code":1,"description":"own"}}`},
+	}
+	for bi, bad := range bads {
+		for oi, ok := range oks {
+			for _, chunk := range []int{0, 1, 7} {
+				want, err := c01typedDecode(ok.kind, []byte(ok.js))
+				if err != nil {
+					continue
+				}
+				tp := rig.NewTransportPair(faultconn.Options{}, nil, nil)
+				if chunk > 0 {
+					tp.CB.SetReadPlan(faultconn.ReadPlan{Chunk: chunk})
+				}
+				go func() { _, _ = tp.CA.Write([]byte(bad + "\n" + ok.js + "\n")) }()
+				ctx, cancel := context.WithTimeout(context.Background(), 20*time.Second)
+				_, err1 := tp.B.Receive(ctx)
+				got, err2 := tp.B.Receive(ctx)
+				cancel()
+				r.Evals++
+				r.Count("runs", 1)
+				r.Count("afterreject_runs", 1)
+				tag := fmt.Sprintf("rejected value #%d %s then %s (read chunk %d)", bi, bad, ok.js, chunk)
+				switch {
+				case err1 == nil:
+					r.Count("afterreject_first_accepted", 1)
+				case err2 != nil:
+					// the transport may also refuse to go on after a rejected value: then nothing is handed over at all
+					r.Count("afterreject_second_refused", 1)
+				default:
+					r.Count("afterreject_second_received", 1)
+					if same, where := gen.Eq(want, got); !same {
+						r.Violate("C12/afterreject/corrupted/"+ok.kind, fmt.Sprintf("%s: the envelope handed over after the rejected value differs from what was sent at %s", tag, where))
+					}
+				}
+				tp.Close()
+				r.Fingerprints = append(r.Fingerprints, fmt.Sprintf("afterreject|%d|%d|%d", bi, oi, chunk))
+			}
+		}
+	}
+}
+
+// loopStream: a real listener and a real dialer (plain TCP), a stream in each direction whose total size is many
+// times the read limit, every envelope within it.
+func (p c12) loopStream(r *core.Result, c core.Case) {
+	const L = 4096
+	l := lime.NewTCPTransportListener(&lime.TCPConfig{ReadLimit: L})
+	if err := l.Listen(context.Background(), &net.TCPAddr{IP: net.IPv4(127, 0, 0, 1), Port: 0}); err != nil {
+		r.Verdict = core.Inconclusive
+		r.Note = "cannot listen on loopback: " + err.Error()
+		return
+	}
+	defer l.Close()
+	ctx, cancel := context.WithTimeout(context.Background(), 60*time.Second)
+	defer cancel()
+	type acc struct {
+		t   lime.Transport
+		err error
+	}
+	ach := make(chan acc, 1)
+	go func() { t, err := l.Accept(ctx); ach <- acc{t, err} }()
+	a, err := lime.DialTcp(ctx, lime.VerifListenerAddr(l), &lime.TCPConfig{ReadLimit: L})
+	if err != nil {
+		r.Verdict = core.Inconclusive
+		r.Note = err.Error()
+		return
+	}
+	ac := <-ach
+	if ac.err != nil {
+		r.Verdict = core.Inconclusive
+		r.Note = ac.err.Error()
+		_ = a.Close()
+		return
+	}
+	b := ac.t
+	g := gen.New(c.Seed)
+	run := func(dir string, from, to lime.Transport) {
+		st := c12mkStream(g, 400, nil)
+		go func() {
+			for _, e := range st.envs {
+				if sendAny(ctx, from, e) != nil {
+					return
+				}
+			}
+		}()
+		for i := range st.envs {
+			got, err := to.Receive(ctx)
+			r.Count("envelopes_received", 1)
+			if err != nil {
+				r.Violate("C12/loopstream/receive-error/"+dir, fmt.Sprintf("real sockets, %s: envelope #%d of %d (%d bytes received so far, read limit %d, every envelope within it) was not handed over: %v", dir, i, len(st.envs), st.ends[i]-int64(len(st.encs[i])), L, err))
+				return
+			}
+			if same, where := gen.Eq(st.envs[i], got); !same {
+				r.Violate("C12/loopstream/not-equal/"+dir, fmt.Sprintf("real sockets, %s: envelope #%d differs at %s", dir, i, where))
+				return
+			}
+		}
+	}
+	r.Evals++
+	r.Count("runs", 1)
+	run("dialer-to-accepted", a, b)
+	run("accepted-to-dialer", b, a)
+	done := make(chan struct{})
+	go func() { _ = a.Close(); close(done) }()
+	_ = b.Close()
+	<-done
+	r.Fingerprints = append(r.Fingerprints, "loopstream|tcp")
 }
